@@ -55,6 +55,26 @@ CHECKS = {
             "Vertices on their three planes and inside all half-spaces, each in exactly three faces; faces planar, simple, convex, counter-clockwise about the inward normal, area = area integral = oracle; Euler; accessors agree with face integrals; discard_faces after with_faces is the identity; every sequence of {with_faces, discard_faces, clone, integrals} of length <= 4 leaves the observations of its type-state unchanged; with_faces on 1D/2D is rejected with the documented message.", "R9 excused for the area integral of wall faces through the generator.", "3/C15"),
     "C16": ("E1 tess", "explicit-state search over the add-a-generator graph: nodes = generator sets, edges = S -> S + p (alphabet points and ring points around every safety ball)",
             "Node invariant: safety radius >= 2 x farthest oracle vertex (active subspace) and >= distance to every face neighbour. Edge relations: a generator added outside the safety ball (all periodic images) leaves the cell unchanged (measure, centroid, face map); no cell grows.", "Ring points that hit the R5 class (panic) are counted, not judged.", "3/C16"),
+    "C09": ("E2 sched", "stateless schedule exploration (depth-first over choice sequences, deviation-bounded) of the real crate compiled against a controlled executor with rayon's API; conformance against the sequential build and real rayon pools",
+            "The crate's real closures run on real OS worker threads under a scheduler that owns every decision of rayon's contract (partition into contiguous chunks, chunk order, worker of each chunk, answer of current_num_threads). For inputs with <= 4 generators every parallel region of the whole pipeline (build, build_partial, integrator build, with_faces, every compute_*, From) is explored exhaustively (554 schedules for 4 items, W = 2) while the others take the default schedule, plus all schedules with <= 2 deviations anywhere; larger inputs (8, 12, 27 generators; exact ties) with <= 2 / <= 1 deviations. Oracle: byte equality of a sectioned digest of all outputs with the default schedule, with a second run of the same schedule, with the sequential (no rayon feature) build and with real rayon pools of 1,2,3,4,8,16,64 threads.",
+            "The scheduling model is rayon's documented contract, not rayon-core's lock-free internals (third-party std atomics that loom/shuttle cannot intercept). Real-rayon runs are a conformance sample. The shim models the API subset the crate uses plus for_each, fold, reduce, sum, map_init, par_bridge, flat_map, join, current_num_threads; a change using anything else fails to build and is reported as a machinery error (exit 2), not as a verdict.", "3/C09"),
+    "C10": ("E3 pred", "exhaustive enumeration of predicate inputs on small integer grids and their embeddings into the 52-bit range, against exact integer oracles; exhaustive grid-map tables",
+            "All 248 832 5-tuples of the grid {0,1,2}x{0,1}x{0,1} (thorough: all 14 348 907 of {0,1,2}^3) through the exact predicate vs the i128 determinant, the geometric meaning (orientation x exact rational circumsphere) and a 512-bit oracle; each tuple under 60+ embeddings into [0,2^52) (scales up to 2^50, translations to the corners/centre, axis permutations, reflections: sign = parity); adversarial co-spherical families with +-1 displacements at 2^20..2^50 scale and integer points on three large spheres; orientation of every vertex dual of every reachable cell of the 3D states (on the library's own integers); grid map range / monotonicity / uniform scaling over every queryable position (box lattice, six wall mirrors, 3^d images) of every box x dimensionality x boundary kind. Run in a debug-assertions and a release build.",
+            "The property's 'randomly on the full range' is replaced by structured exhaustive families (sampling is not this technique's evidence).", "3/C10"),
+    "C11": ("E3 pred", "the same exhaustive tables and state families run once per big-integer back end (four separately built binaries); case-by-case comparison of digest streams",
+            "ibig, dashu, malachite and num_bigint builds each produce one digest per case for the complete C10 predicate tables (with embeddings and adversarial families) and for every state of the C05 families (bitwise tessellation digest incl. vertex duals, or the panic message); the four streams must be identical case by case.",
+            "rug cannot be built in the sandbox (GMP configure needs m4).", "3/C11"),
+    "C17": ("E5 aux", "exhaustive enumeration of generator sets x query generator through the hook wrapper of the neighbour iterators; brute-force oracle",
+            "For every subset of the 1D lattice, of a 3x3 (thorough 4x4) 2D lattice, 3D lattice subsets up to K, generic pool subsets, and perfect 4^3 (5^3) lattices with <= 1 generator removed, reflective and periodic, three boxes: first item = (query, no shift); every generator (periodic: each of its 3^d images) visited exactly once; shifts are exact lattice vectors, absent iff zero; distances non-decreasing (strict comparison where the arithmetic is exact, coordinate-scaled tolerance otherwise).",
+            "Point sets up to 125 generators; 10^4-point sets are outside the bound.", "3/C17"),
+    "C18": ("E4 clip", "explicit-state search over storage orders: all permutations x rotations of the removed vertices of every reachable (cell, plane) pair; exhaustive drive of the boundary cycle over all small triangulated disks",
+            "Cells = every intermediate and final cell the builder reaches for the 3D states (rebuilt clip by clip through the hook), planes = the builder's next neighbour and the bisector towards every unused alphabet point; all |R|! orders (|R| <= 6 quick / 7 thorough) x all 3^|R| rotations (|R| <= 3 / 4; patterns above) x arrangements of the kept vertices: same canonical vertex set and volume as the unpermuted clip, closed polytope, Euler, never a panic. Companion: the real SimpleCycle driven by the builder's greedy loop over every order of every triangulated disk with <= 6 / 7 triangles: never stuck, always the disk's boundary. Cells with > 64 planes (shell inputs).",
+            "A combinatorial configuration is enumerated completely once per run and re-clipped for two orders at later occurrences. Above the permutation bound the orders are deviation-bounded, as the property allows ('sampled above').", "3/C18"),
+    "C19": ("E5 aux", "exhaustive enumeration of helper arguments on small integer lattices (x scales); defining equations evaluated in exact integer arithmetic",
+            "intersect_planes for all triples of non-zero normals in {-2..2}^3 with det != 0 (normalised and not); project_onto / project_onto_intersection (on the plane/line, along the normal / orthogonal to the line, idempotent, exact value) incl. non-unit normals and three scales; signed_volume_tet / signed_area_tri on all 4-tuples of {0,1,2}^3 (value, sign convention, antisymmetry); spheres through all affinely independent 2-,3-,4-tuples; extend/contains on a sphere x point menu at three scales.", "Non-degenerate arguments only, as the property states.", "3/C19"),
+    "C20": ("E5 aux", "exhaustive enumeration of small particle / point / sphere sets through the hook wrappers; brute-force oracles",
+            "knn: all particle sets of size 2..K from a 4x4x2 lattice and the generic pool, all k < n, four box shapes, six grid cell sizes, plus all 3-sets of a fine planar lattice (particles close to cell faces, neighbours one and two cells away) for each narrow axis: returned neighbours compared with brute-force distances. Bounding spheres: all subsets of {0,1,2}^3 (two placements) and of the generic pool: Welzl contains all points and is minimal (all 2-,3-,4-point support spheres), Epos6 contains all points / spheres.",
+            "Known finding: single-element sets (documented empty sphere; NaN). Distances are compared, not ids, so ties are not an alarm.", "3/C20"),
 }
 
 NOT_YET = {
@@ -94,7 +114,7 @@ def main():
         "engines": ENGINES,
         "checks": checks,
         "not_applicable": na,
-        "notes": "Fix commits in /repo (see known_findings.txt 'fixed:' lines): d8c26fa (C04 normal sign), d5646cf (C05/C10 integer grid), 682e940 (C12 inactive cell index), 0e935df (C14 marker trait export), aa2da1c (C20 Space cell positions). Known findings: known_findings.txt + known_findings/.",
+        "notes": "Fix commits in /repo (see known_findings.txt 'fixed:' lines): d8c26fa (C04 normal sign), d5646cf (C05/C10 integer grid), 682e940 (C12 inactive cell index), 0e935df (C14 marker trait export), aa2da1c (C20 Space cell positions), 5778456 (C20 Epos6 extremal points). Known findings: known_findings.txt + known_findings/.",
     }
     json.dump(m, open('/verif/MANIFEST.json', 'w'), indent=1)
     print("checks:", len(checks), "not_applicable:", len(na))
